@@ -113,7 +113,7 @@ def cases(tier, seed):
     for i in range(0, len(ops), 100):
         cs.append(Case("huge-%d" % i, ops[i:i + 100], ("huge-counts",)))
     # plumbing
-    fns = ["cbc", "n_cbc", "drain_cbc", "n", "drain", "some_aux", "atmost_aux", "n_aux", "drain_aux"]
+    fns = ["cbc", "n_cbc", "drain_cbc", "n", "drain", "some_aux", "atmost_aux", "n_aux", "drain_aux", "atmost", "some"]
     nozero = [s for s in SYMS if s != "z"]
     npairs = 60 if tier == "quick" else 1500
     ops = []
